@@ -87,7 +87,10 @@ func isTrustedProxy(remoteIP *string, trustedProxyCIDRs []*net.IPNet) bool {
 	if ip == nil {
 		return false
 	}
-	if len(trustedProxyCIDRs) == 0 {
+	// A nil list means that no trusted proxy CIDRs were configured at all. A
+	// configured list whose entries were all rejected as malformed is empty but
+	// non-nil and must not trust every peer.
+	if trustedProxyCIDRs == nil {
 		return true
 	}
 	for _, cidr := range trustedProxyCIDRs {
